@@ -15,8 +15,8 @@ FAMS = {
     "C06": (["gates", "crashchkfn"], ["gates", "gates2", "crashchk", "crashchkfn"]),
     "C07": (["contq", "gates"], ["cont", "gates", "gates2", "live"]),
     "C08": (["order", "retry", "poll"], ["order", "retry", "poll", "tolerance", "gates"]),
-    "C09": (["crash", "crash2"], ["crash", "crash2", "crashchk", "crashchkfn", "crashdeep"]),
-    "C10": (["crashfn", "crashchkfn", "crash"], ["crash", "crashfn", "crash2", "crash2fn", "crashchk", "crashchkfn", "livecrash", "livecrashchk", "crashdeepfn"]),
+    "C09": (["crash", "crash2", "crashretry"], ["crash", "crash2", "crashchk", "crashchkfn", "crashdeep"]),
+    "C10": (["crashfn", "crashchkfn", "crash", "crashretry"], ["crash", "crashfn", "crash2", "crash2fn", "crashchk", "crashchkfn", "livecrash", "livecrashchk", "crashdeepfn"]),
     "C11": (["aged1"], ["aged1", "aged", "aged2"]),
     "C12": ([], []),
 }
